@@ -52,6 +52,9 @@ pub struct BuildSpec {
     pub ops: Vec<Value>,
     #[serde(default)]
     pub launch: Option<LaunchSpec>,
+    /// a second `BuildResultBuilder::launch` call on the same builder (after `launch`)
+    #[serde(default)]
+    pub launch2: Option<LaunchSpec>,
     #[serde(default)]
     pub store: Option<Value>,
     #[serde(default)]
@@ -467,6 +470,9 @@ pub fn build(ctx: BuildContext<VB>) -> libcnb::Result<BuildResult, VErr> {
     }
     let mut b = BuildResultBuilder::new();
     if let Some(l) = &spec.launch {
+        b = b.launch(build_launch(l).map_err(|e| libcnb::Error::BuildpackError(VErr(e)))?);
+    }
+    if let Some(l) = &spec.launch2 {
         b = b.launch(build_launch(l).map_err(|e| libcnb::Error::BuildpackError(VErr(e)))?);
     }
     if let Some(s) = &spec.store {
